@@ -247,6 +247,109 @@ def main():
         want = t.repeat(*a) if kind == "repeat" else t.repeat_interleave(a[0], dim=a[1])
         run.corr("spec:" + kind, {"shape": list(shape), "args": list(a)}, ["ok", L.canon(want)], parse_sx(ans))
 
+    # ---- 3b'. gather: model (`gatherNode`, index of the batch rank) vs implementation (values, batch = index.shape, names, error class)
+    g_cases, g_lines = [], []
+    for i in range(200 if quick else 3000):
+        rank = rng.choice([1, 2, 2, 3, 3])
+        bs = tuple(rng.choice(L.DIMS if rng.random() < 0.3 else (1, 2, 3)) for _ in range(rank))
+        spec = L.gen_tree(rng, bs, named=rng.random() < 0.45)
+        d = rng.randrange(-rank - 1, rank + 1) if rng.random() < 0.15 else rng.randrange(-rank, rank)
+        dd = (d + rank if d < 0 else d)
+        dd = dd if 0 <= dd < rank else 0
+        ishape = list(bs); ishape[dd] = rng.choice([0, 1, 2, 3]) if bs[dd] else 0
+        if rank > 1 and rng.random() < 0.2:
+            o = rng.choice([k for k in range(rank) if k != dd])
+            ishape[o] = rng.choice([1, max(bs[o] - 1, 0), bs[o] + 1])
+        hi = bs[dd]
+        vals = [rng.randrange(hi) if hi else 0 for _ in range(L.numel(ishape))]
+        if vals and hi and rng.random() < 0.05:
+            vals[rng.randrange(len(vals))] = hi          # an index value out of range: torch raises in the leaf call
+        g_cases.append((spec, d, tuple(ishape), vals))
+        g_lines.append(f"(c02.gather {d} (idx ({' '.join(map(str, ishape))}) ({' '.join(map(str, vals))})) {L.spec_sx(spec)})")
+    for (spec, d, ishape, vals), ans in zip(g_cases, ask_chunked(drv, g_lines)):
+        td = L.build(spec)
+        index = torch.tensor(vals, dtype=torch.int64).reshape(ishape)
+        try:
+            with L.time_limit(30.0):
+                r = td.gather(d, index)
+            impl = ["ok", L.canon(r)]
+        except Exception as e:  # noqa: BLE001
+            impl = ["err", L.err_class(e)]
+        run.case(("gather", d, str(ishape), str(vals), L.spec_sx(spec)))
+        run.count("gather.outcome", impl[0] if impl[0] == "ok" else "err:" + impl[1])
+        run.corr("td:gather", {"dim": d, "index_shape": list(ishape), "index": vals, "td": L.spec_sx(spec)}, impl, parse_sx(ans))
+
+    # ---- 3b''. masked_select: model (`mselNode`, mask over the leading k <= n batch dims) vs implementation
+    m_cases, m_lines = [], []
+    for i in range(200 if quick else 3000):
+        rank = rng.choice([1, 2, 2, 3, 3])
+        bs = tuple(rng.choice(L.DIMS if rng.random() < 0.3 else (1, 2, 3)) for _ in range(rank))
+        spec = L.gen_tree(rng, bs, named=rng.random() < 0.45)
+        k = rank if rng.random() < 0.6 else rng.randint(1, rank)
+        mshape = list(bs[:k])
+        if rng.random() < 0.08:
+            j = rng.randrange(k); mshape[j] = mshape[j] + 1       # a mask that does not match the batch: IndexError in every entry
+        vals = [1 if rng.random() < 0.5 else 0 for _ in range(L.numel(mshape))]
+        m_cases.append((spec, tuple(mshape), vals))
+        m_lines.append(f"(c02.msel (mask ({' '.join(map(str, mshape))}) ({' '.join(map(str, vals))})) {L.spec_sx(spec)})")
+    for (spec, mshape, vals), ans in zip(m_cases, ask_chunked(drv, m_lines)):
+        td = L.build(spec)
+        mask = torch.tensor(vals, dtype=torch.bool).reshape(mshape)
+        try:
+            with L.time_limit(30.0):
+                r = td.masked_select(mask)
+            impl = ["ok", L.canon(r)]
+        except Exception as e:  # noqa: BLE001
+            impl = ["err", L.err_class(e)]
+        run.case(("masked_select", str(mshape), str(vals), L.spec_sx(spec)))
+        run.count("msel.outcome", impl[0] if impl[0] == "ok" else "err:" + impl[1])
+        run.corr("td:masked_select", {"mask_shape": list(mshape), "mask": vals, "td": L.spec_sx(spec)}, impl, parse_sx(ans))
+
+    # torch spec of gather / boolean-mask indexing on plain provenance tensors
+    sp_cases, sp_lines = [], []
+    for shape in ([(2,), (3,), (1, 3), (2, 3), (3, 1, 2), (2, 0, 2), (2, 2, 2)] + ([] if quick else [sh for sh in L.all_shapes(3) if sh])):
+        for _ in range(4):
+            n = len(shape)
+            d = rng.randrange(n)
+            ish = [rng.choice([x, x, max(x - 1, 0), x + 1]) if k != d else rng.choice([0, 1, 2, 3]) for k, x in enumerate(shape)]
+            hi = shape[d]
+            vals = [rng.randrange(hi) if hi else 0 for _ in range(L.numel(ish))]
+            if vals and rng.random() < 0.1:
+                vals[0] = hi
+            sp_cases.append(("gather", shape, (d, tuple(ish), vals)))
+            sp_lines.append(f"(c02.torch_gather {d} (idx ({' '.join(map(str, ish))}) ({' '.join(map(str, vals))})) ({' '.join(map(str, shape))}))")
+            k = rng.randint(1, n)
+            mv = [1 if rng.random() < 0.5 else 0 for _ in range(L.numel(shape[:k]))]
+            sp_cases.append(("msel", shape, (tuple(shape[:k]), mv)))
+            sp_lines.append(f"(c02.torch_msel (mask ({' '.join(map(str, shape[:k]))}) ({' '.join(map(str, mv))})) ({' '.join(map(str, shape))}))")
+    for (kind, shape, a), ans in zip(sp_cases, ask_chunked(drv, sp_lines)):
+        t = torch.arange(L.numel(shape), dtype=torch.int64).reshape(shape)
+        try:
+            if kind == "gather":
+                want = ["ok", L.canon(torch.gather(t, a[0], torch.tensor(a[2], dtype=torch.int64).reshape(a[1])))]
+            else:
+                want = ["ok", L.canon(t[torch.tensor(a[1], dtype=torch.bool).reshape(a[0])])]
+        except Exception as e:  # noqa: BLE001
+            want = ["err", L.err_class(e)]
+        run.corr("spec:" + kind, {"shape": list(shape), "args": [list(x) if isinstance(x, tuple) else x for x in a]}, want, parse_sx(ans))
+
+    # torch spec of stack / cat on plain provenance tensors (valid operands; the argument checks are in `tdStack`/`tdCat`)
+    sp_cases, sp_lines = [], []
+    for shape in ([(2,), (0,), (1, 3), (2, 3), (3, 1, 2), (2, 0, 2)] + ([] if quick else [sh for sh in L.all_shapes(3) if sh])):
+        for _ in range(3):
+            n = len(shape); k = rng.choice([1, 2, 3, 4])
+            d = rng.randrange(n + 1)
+            sp_cases.append(("stack", d, [shape] * k))
+            sp_lines.append(f"(c02.torch_stack {d} " + " ".join("(" + " ".join(map(str, shape)) + ")" for _ in range(k)) + ")")
+            d = rng.randrange(n)
+            shs = [tuple(rng.choice([0, 1, 2, 3]) if j == d else x for j, x in enumerate(shape)) for _ in range(k)]
+            sp_cases.append(("cat", d, shs))
+            sp_lines.append(f"(c02.torch_cat {d} " + " ".join("(" + " ".join(map(str, sh)) + ")" for sh in shs) + ")")
+    for (kind, d, shs), ans in zip(sp_cases, ask_chunked(drv, sp_lines)):
+        ts = [torch.arange(L.numel(sh), dtype=torch.int64).reshape(sh) + 100000 * i for i, sh in enumerate(shs)]
+        want = torch.stack(ts, d) if kind == "stack" else torch.cat(ts, d)
+        run.corr("spec:" + kind, {"dim": d, "shapes": [list(x) for x in shs]}, ["ok", L.canon(want)], parse_sx(ans))
+
     # ---- 3c. torch.stack / torch.cat of 1-4 tensordicts: model vs implementation (values, batch, names, error class)
     import torch as _torch
     sc_cases, sc_lines = [], []
